@@ -340,7 +340,7 @@ Section Confine.
 
   Lemma okM_kw_wrap cek : okM (fun _ => True) (kw_wrap cek).
   Proof.
-    unfold kw_wrap. destruct (negb (slen cek mod 8 =? 0)); [apply okM_ret; exact I|].
+    unfold kw_wrap. destruct ((slen cek =? 0) || negb (slen cek mod 8 =? 0)); [apply okM_ret; exact I|].
     eapply okM_bind; [apply okM_alloc|]. intros a Ha.
     eapply okM_bind; [apply okM_copy_cells, Ha|]. intros _ _.
     eapply okM_bind; [apply (okM_kw_rows cek (fun i => i * 8))|]. intros r Hr.
